@@ -14,6 +14,7 @@ done
 echo "== merging verif branch $B"
 git merge --no-edit $B 2>&1 | tail -3 || { echo MERGE CONFLICT; exit 1; }
 python3 lib/genreg.py
+python3 lib/fixhashes.py
 # hook commits recorded in MANIFEST.hooks
 python3 - <<'PY'
 import json, subprocess
